@@ -11,7 +11,7 @@ use crate::{
     util,
 };
 
-mod vftable;
+pub(crate) mod vftable;
 use anyhow::Context;
 pub use vftable::TypeVftable;
 
